@@ -9,6 +9,7 @@ invariants at every step, both Exchange calls return (watchdog), and EndAll (del
 import json
 
 import vlib
+import b2fmech
 import b2fcommon as bc
 
 
@@ -32,6 +33,12 @@ def run(ctx):
     st = json.loads(p.stdout.strip().splitlines()[-1])
     acc, rejected, _ = vlib.validate_traces(ctx, bc.SPECDIR, "B2FPropsTrace", "B2FPropsTrace.cfg", traces, st["traces"])
     scens = vlib.read_ndjson(scen)
+    # mechanism level: the faulty executions (cuts at byte positions, storage failures, several sessions) must be behaviours
+    # of B2F.tla with its Cut / StoreFail / WriteFails environment (silent steps and the units that survive a cut inferred)
+    macc, mtot, mskip, drift = b2fmech.validate(ctx, vlib.read_ndjson(traces), name="mech", limit=900 if quick else None)
+    for dline in drift[:5]:
+        print("SPEC-DRIFT: " + dline[:400])
+    ctx.drift += drift[:20]
     if rejected:
         rows = vlib.read_ndjson(traces)
         bc.report_rejections(ctx, "C02", rows, rejected, lambda row: scens[row["item"] - 1])
@@ -46,5 +53,6 @@ def run(ctx):
         "samples": [scens[0], scens[len(scens) // 2], scens[-1]],
         "exhaustive": not quick,
         "stats": st,
+        "mechanism_traces_validated": {"accepted": macc, "total": mtot, "skipped": mskip},
     }, ["TLC", "wire lexer", "content identity by bytes.Equal", "cut model: receiver gets exactly k bytes then EOF; writer sees error or "
         "silent success; reverse bytes in flight delivered or dropped", "watchdog 20 s per session"])
